@@ -106,6 +106,12 @@ def one_history(ctx, ss, clock, i, maxsz_patch, big_offsets=False):
                     off = maxsz + r.choice([0, 1, 7]) if maxsz_patch is None else maxsz + r.choice([0, 1, 1, 7]) - r.choice([0, 1, 3])
                     dv.insert(r.randint(0, len(dv)), (off, M.rb(r, r.choice([1, 2, 3]))))
                 tv = M.gen_testv(r, cur, 0.9)
+                if ref is None and r.random() < 0.3:
+                    # a writer that still believes in the share's old contents asks for a share the
+                    # server does not hold to be deleted / truncated / written: the test is evaluated
+                    # against the empty share and must fail, whatever new_length says
+                    tv = [(r.choice([0, 0, 3]), r.choice([1, 4, 100]), b"eq", M.rb(r, r.choice([1, 4])))]
+                    nl = r.choice([0, 0, 0, None, 5])
                 op = ("tw", tv, dv, nl)
                 res = M.call(ss.slot_testv_and_readv_and_writev, si, SECRETS, {0: (tv, dv, nl)}, [], renew_leases=False)
                 tests_ok = all(cur[o:o + n] == spec for (o, n, _, spec) in tv)
